@@ -145,6 +145,7 @@ _Bool vf_aptr_cas_weak(struct vf_atomic_ptr_ *a, void **expected, void *desired,
 struct %(ZN)s vf_env_rec;
 _Bool g_env_off;                  /* the list is being destroyed: no other thread uses it any more */
 struct %(NODE)s vf_hn, vf_tn, vf_mid;    /* the list nodes a writer can touch (harness) */
+struct %(L)s vf_list;                 /* the list behind a handle (harness) */
 void vf_rcu_env(struct vf_atomic_ptr_ *a)
 {
   if (!g_env_off && vf_LST != 0 && a == (struct vf_atomic_ptr_ *)&vf_LST->m_zombie_head && !g_rec_published && vf_nondet_bool())
@@ -439,3 +440,32 @@ FN[r'rcu_list::dtor'] = dict(
                    "[C13] every element still in the list and every erased element is destroyed and deallocated exactly once");
   __CPROVER_assert(g_rec_frees == (int)nrec, "[C13] every bookkeeping record is freed exactly once");
 ''' % dict(D, NB=NB))
+
+# ---------------------------------------------------------------------------- rcu_guarded handles
+# unlock() is only verified under a bound (above); here its contract is what the handle destructors rely on
+H_SETUP = ('vf_LST = &vf_list; self->m_ptr = &vf_list; vf_list.m_zombie_head.v = vf_nondet_bool() ? (void *)&vf_env_rec : (void *)0;') % D
+for _h, _lock in (('read_handle', 'rcu_read_lock'), ('write_handle', 'rcu_write_lock')):
+    FN[r'rcu_guarded::%s::access' % _h] = dict(
+        props='C05 C14', setup=H_SETUP, inline_callees=True,
+        requires=['vf_LST == self->m_ptr && vf_LST != 0 && ' + FRESH + ' && !vf_exc && vf_held == 0 && ' + R3],
+        ensures=[('C05', '(!vf_exc && !__CPROVER_old(self->m_accessed)) ==> (self->m_accessed && g_rec_pushes == 1 && g_rec_published && g_list_reads == 0 && self->m_guard.m_zombie == g_newrec)',
+                  'first access registers the guard (exactly one record pushed) before anything of the list is read'),
+                 ('C05', '__CPROVER_old(self->m_accessed) ==> (self->m_accessed && g_rec_pushes == 0 && g_atomic_ops == 0)', 'later accesses do nothing'),
+                 ('C05', 'vf_exc ==> (!self->m_accessed && g_rec_pushes == 0)', 'a failed registration leaves the handle unregistered'),
+                 ('C14', NOBLOCK, 'no lock, no wait')],
+        assigns=['*self, vf_list.m_zombie_head.v, ' + RG])
+    FN[r'rcu_guarded::%s::(op_deref|op_arrow)' % _h] = dict(
+        props='C05 C14', setup=H_SETUP, inline_callees=True,
+        requires=['vf_LST == self->m_ptr && vf_LST != 0 && ' + FRESH + ' && !vf_exc && vf_held == 0 && ' + R3],
+        ensures=[('C05', '!vf_exc ==> (__CPROVER_return_value == self->m_ptr && self->m_accessed && (__CPROVER_old(self->m_accessed) || (g_rec_pushes == 1 && g_list_reads == 0)))',
+                  'the list pointer is handed out only after the guard has been registered'),
+                 ('C14', NOBLOCK, 'no lock, no wait')],
+        assigns=['*self, vf_list.m_zombie_head.v, ' + RG])
+    FN[r'rcu_guarded::%s::ctor__.*' % _h] = dict(
+        props='C05', requires=['!vf_exc'],
+        ensures=[('C05', 'self->m_ptr == ptr && !self->m_accessed && !vf_exc', 'a fresh handle is not registered and has touched nothing')],
+        assigns='*self')
+FN[r'rcu_guarded::lock_(read|write)'] = dict(
+    props='C05 C14', loop_free=True, requires=['!vf_exc && ' + FRESH],
+    ensures=[('C05 C14', 'vf_ret->m_ptr == &self->m_obj && !vf_ret->m_accessed && !vf_exc && g_atomic_ops == 0', 'handing out a handle touches neither list nor log')],
+    assigns='*vf_ret')
